@@ -92,6 +92,11 @@ func (r *Run) OK(construct, pos string, facts ...string) {
 	r.add(Obligation{Construct: construct, Status: Discharged, Pos: pos, Facts: facts})
 }
 
+// Obligation records a discharged obligation, optionally marked trivial.
+func (r *Run) Obligation(construct, pos string, trivial bool, facts ...string) {
+	r.add(Obligation{Construct: construct, Status: Discharged, Pos: pos, Facts: facts, Trivial: trivial})
+}
+
 // Bad records a violated obligation.
 func (r *Run) Bad(construct, pos, expected, found string, facts ...string) {
 	r.add(Obligation{Construct: construct, Status: Violated, Pos: pos, Expected: expected, Found: found, Facts: facts})
